@@ -443,6 +443,33 @@ func OtherRuleSpecs() []*RuleSpec {
 	mk("map-items:integer-rules", "map-items", TInt32, "itemSchema.integer.rules.minimum = 1")
 	mk("array:single-form", "array-ext", TString, `ext.singleForm = "tag"`)
 	mk("map:single-form", "map", TString, `ext.singleForm = "entry"`)
+	// two groups of attributes on one field: every pair of the declarations above that are about the same
+	// kind of field and do not set the same attribute (a format next to list rules, rules next to list rules)
+	single := append([]*RuleSpec{}, out...)
+	key := func(a string) string { k, _, _ := strings.Cut(a, " = "); return k }
+	for i, a := range single {
+		for _, b := range single[i+1:] {
+			if a.Kind != b.Kind || a.Family != b.Family || a.Array || b.Array || a.Item != nil || b.Item != nil {
+				continue
+			}
+			group := func(r *RuleSpec) string { g, _, _ := strings.Cut(r.Attrs[0], "."); return g }
+			if len(a.Attrs) == 0 || len(b.Attrs) == 0 || group(a) == group(b) {
+				continue // the same group (two sets of rules): nothing new
+			}
+			clash := false
+			for _, x := range a.Attrs {
+				for _, y := range b.Attrs {
+					if key(x) == key(y) {
+						clash = true
+					}
+				}
+			}
+			if clash {
+				continue
+			}
+			mk(a.ID+"+"+b.ID, a.Family, a.Kind, append(append([]string{}, a.Attrs...), b.Attrs...)...)
+		}
+	}
 	return out
 }
 
